@@ -111,3 +111,40 @@ package null
 //@   requires rdable(p, 32)
 //@   ensures [C02,C13] res == (mem8(uintptr(p) + 24) == 0)
 //@   pure
+
+// ---------------------------------------------------------------- null.String, null.Time: Read / Write
+//@ spec wfRBS(r ptr) bool = wfRB(r) && r.rb != nil && (base(r.rb.sData) != base(r.buf) || len(r.buf) == 0)
+
+//@ func (nullStringCodec).Read
+//@   props C06
+//@   let i0 := data.i, n := len(data.buf), e := vend(data.buf, data.i), l := vval(data.buf, data.i)
+//@   requires wfRBS(data) && rdable(ptr, 24)
+//@   ensures [C06,C04,C03] i0 <= data.i && data.i <= n
+//@   ensures [C04,C03] err == nil ==> uvOK(data.buf, i0, e) && l >= 0 && data.i == e + int(l)
+//@   ensures [C03,C02] err == nil ==> len(memstr(ptr)) == int(l) && (forall k int :: 0 <= k && k < int(l) ==> memstr(ptr)[k] == data.buf[e+k]) && mem8(uintptr(ptr) + 16) == 1
+//@   modifies data.i, M[ptr, 24], data.rb.sData, BH[data.rb.sData]
+
+//@ func (nullStringCodec).Write
+//@   let b0 := w.buf, s := memstr(p)
+//@   requires w != nil && rdable(p, 24) && wfslice(s)
+//@   ensures [C13,C02] len(w.buf) == len(b0) + uvlen(zz(int64(len(s)))) + len(s)
+//@   ensures [C13,C02] forall k int :: 0 <= k && k < len(b0) ==> w.buf[k] == old(b0[k])
+//@   modifies w.buf, BH[w.buf]
+
+//@ func (nullTimeCodec).Read
+//@   props C06
+//@   let i0 := data.i, n := len(data.buf), e := vend(data.buf, data.i), l := vval(data.buf, data.i)
+//@   requires wfRB(data) && rdable(ptr, 32) && tzInv()
+//@   requires [C12] !locked(tzLock)
+//@   ensures [C12] !locked(tzLock)
+//@   ensures [C18] tzInv()
+//@   ensures [C06,C04,C03] i0 <= data.i && data.i <= n
+//@   ensures [C04,C03] err == nil ==> uvOK(data.buf, i0, e) && l >= 0 && data.i == e + int(l)
+//@   ensures [C03,C02] mem8(uintptr(ptr) + 24) == 1
+//@   modifies data.i, M[ptr, 32], map map[int]*time.Location, ghost lock.held
+
+//@ func (nullTimeCodec).Write
+//@   let b0 := w.buf
+//@   requires w != nil && rdable(p, 32)
+//@   ensures [C13,C02] len(b0) <= len(w.buf) && (forall k int :: 0 <= k && k < len(b0) ==> w.buf[k] == old(b0[k]))
+//@   modifies w.buf, BH[w.buf]
